@@ -693,3 +693,41 @@ class ObjDiagonalizeFock(Contract):
         out.append(("the-other-index-is-substituted-by-the-surviving-one",
                     pairs is not None and len(pairs) == 1 and pairs[0][0] is other and pairs[0][1] is keep))
         return out
+
+
+# --- Obj.block_diagonalize_fock: only off diagonal blocks of the Fock matrix vanish ---------------------
+@register
+class ObjBlockDiagonalizeFock(Contract):
+    key = "adcgen.expr_container:Obj.block_diagonalize_fock"
+    props = ["C13"]
+    SPACES = ["oo", "ov", "vo", "vv", "gg", "og", "gv"]
+
+    def setup(self, vc):
+        C.EXTERNALS["adcgen.tensor_names:tensor_names"] = Struct("TensorNames", fock="f", orb_energy="e")
+        is_fock = vc.choose(2, "is_fock") == 1
+        space = self.SPACES[vc.choose(len(self.SPACES), "block")]
+        me = Struct("FockObj2", name="f" if is_fock else "X", space=space, sympy=Struct("ObjSympy"),
+                    assm=Struct("Opaque", what="assumptions"))
+        for f in ("name", "space", "sympy"):
+            C.STRUCT_ATTR[("FockObj2", f)] = (lambda f: lambda ip, o: o.f[f])(f)
+        C.STRUCT_ATTR[("FockObj2", "assumptions")] = lambda ip, o: PDict({"marker": o.f["assm"]})
+        C.CLASS_MODELS["adcgen.expr_container:Expr"] = lambda ip, a, k: Struct("ExprV", of=a[0], kw=dict(k))
+        return {"self": me, "return_sympy": vc.choose(2, "return_sympy") == 1}
+
+    def post(self, vc, a, result):
+        me = a["self"].f
+        out = []
+        obj = result
+        if not a["return_sympy"]:
+            w = isinstance(result, Struct) and result.cls == "ExprV" and set(result.f["kw"]) == {"marker"} \
+                and result.f["kw"]["marker"] is me["assm"]
+            out.append(("an-expression-with-the-assumptions-of-the-object-is-returned", w))
+            obj = result.f["of"] if w else None
+        # off diagonal: one occupied and one virtual index (a general index also runs over the
+        # orbitals of the diagonal block)
+        off_diagonal = me["name"] == "f" and set(me["space"]) == {"o", "v"}
+        if off_diagonal:
+            out.append(("an-off-diagonal-block-of-the-fock-matrix-vanishes", isinstance(obj, int) and obj == 0))
+        else:
+            out.append(("everything-else-is-untouched", obj is me["sympy"]))
+        return out
